@@ -141,6 +141,77 @@ def tdot_axes(sa, sb):
                     yield (aa, bb)
 
 
+def wide_tensordot(cc, seed, res):
+    """operands with MANY axes (most of size 1), so that one pairwise step
+    needs more than 26 (up to 48) distinct index symbols; beyond 52 the
+    numpy backend itself has no string form for the step"""
+    for ra, rb, k in ((14, 14, 1), (14, 14, 0), (18, 18, 9), (20, 10, 2),
+                      (27, 2, 1), (26, 26, 4), (30, 20, 2)):
+        for variant in range(4):
+            # sizes: contracted axes 2, three kept axes per side 2 or 3,
+            # the rest 1; axes picked from the front / back / interleaved
+            if variant == 0:
+                aa = tuple(range(ra - k, ra))
+                bb = tuple(range(k))
+            elif variant == 1:
+                aa = tuple(range(k))
+                bb = tuple(range(rb - k, rb))
+            elif variant == 2:
+                aa = tuple(range(0, 2 * k, 2))
+                bb = tuple(reversed(range(rb - 2 * k, rb, 2)))
+            else:
+                aa = tuple(reversed(range(ra - k, ra)))
+                bb = tuple(range(1, k + 1))
+            sa = [1] * ra
+            sb = [1] * rb
+            for i, j in zip(aa, bb):
+                sa[i] = sb[j] = 2
+            for i in [x for x in range(ra) if x not in aa][:3]:
+                sa[i] = 2 + (i % 2)
+            for j in [x for x in range(rb) if x not in bb][-3:]:
+                sb[j] = 2 + (j % 2)
+            A = ref.make_arrays([tuple(f"a{i}" for i in range(ra))],
+                                {f"a{i}": d for i, d in enumerate(sa)},
+                                f"{seed}-w")[0]
+            B = ref.make_arrays([tuple(f"b{i}" for i in range(rb))],
+                                {f"b{i}": d for i, d in enumerate(sb)},
+                                f"{seed}-wb")[0]
+            want = np.tensordot(A, B, (aa, bb))
+            res.evals += 1
+            res.key(("wide", ra, rb, k, variant))
+            case = {"kind": "tensordot-wide", "shape_a": sa, "shape_b": sb,
+                    "axes": (aa, bb), "seed": seed}
+            try:
+                got = cc.tensordot(A, B, (aa, bb))
+                ok = ref.exact_equal(got, want)
+                det = None if ok else ref.describe_mismatch(got, want)
+            except Exception as e:
+                ok, det = False, {"exception": repr(e)}
+            if not ok:
+                res.violation("tensordot-mismatch:many-axes", case, det)
+            # and as a two-operand einsum with that many symbols
+            import string
+
+            sym = list(string.ascii_letters)  # 52: what numpy can spell
+            ta = sym[:ra]
+            tb = sym[ra:ra + rb]
+            for i, j in zip(aa, bb):
+                tb[j] = ta[i]
+            out = [x for i, x in enumerate(ta) if i not in aa] + \
+                [x for j, x in enumerate(tb) if j not in bb]
+            eq = "".join(ta) + "," + "".join(tb) + "->" + "".join(out)
+            res.evals += 1
+            try:
+                got = cc.einsum(eq, A, B)
+                ok = ref.exact_equal(got, want)
+                det = None if ok else ref.describe_mismatch(got, want)
+            except Exception as e:
+                ok, det = False, {"exception": repr(e)}
+            if not ok:
+                res.violation("einsum-mismatch:many-symbols",
+                              {**case, "eq": eq}, det)
+
+
 def work(unit):
     import importlib
     cc = importlib.import_module("cotengra.contract")
@@ -233,6 +304,8 @@ def work(unit):
                                         sp[0], tuple) else "int-pair-axes"),
                                 {**case, "spelling": sp}, det)
                 res.key(("td", sa, sb, axes))
+        if a == 0:
+            wide_tensordot(cc, seed, res)
         res.sample({"kind": "tensordot", "shape_a": cases[-1][0],
                     "shape_b": cases[-1][1]}, cap=1)
         return res
